@@ -132,9 +132,19 @@ func (fv *FV) execGhost(st *State, g *GhostStmt, pos token.Pos) {
 	if !pos.IsValid() {
 		env.scopePos = fv.fi.Decl.Body.Lbrace + 1
 	}
+	if fv.curResults != nil {
+		env.results = fv.curResults
+	}
 	switch g.Kind {
 	case "assert":
-		fv.oblige(st, "ghost.assert["+g.Src+"]", fv.specBool(env, g.RHS), "ghost assertion "+g.Src, g.Tags, pos)
+		parts := fv.splitConj(env, g.RHS)
+		for j, phi := range parts {
+			name := "ghost.assert[" + g.Src + "]"
+			if len(parts) > 1 {
+				name = fmt.Sprintf("ghost.assert[%s]/%d", g.Src, j+1)
+			}
+			fv.oblige(st, name, phi, "ghost assertion "+g.Src, g.Tags, pos)
+		}
 		fv.assume(st, fv.specBool(env, g.RHS))
 	case "apply":
 		fv.applyLemma(st, env, g, pos)
